@@ -65,8 +65,6 @@ ASSUMPTIONS = [
     "joblib.Parallel returns results in submission order (exercised by the `par` cases against Par.parallelMap)",
     "`predict()` without a horizon means 'the horizon given last' (by design of _OptionalForecastingHorizonMixin); its effective argument is that horizon",
     "results are compared with relative tolerance 1e-9 (BLAS / summation-order rounding is not judged), labels / shapes / error kinds exactly",
-    "OPEN finding (findings/C12.md 4): the time series forests share a RandomState INSTANCE between parallel tree fits (schedule-dependent under n_jobs>1); "
-    "a race has no deterministic witness, so that combination is excluded from the sweep and counted as skipped until findings/C12-tsf-shared-generator.patch lands",
     "estimators that cannot run in this sandbox (soft dependencies, compiled extensions, sklearn-1.7 parameter validation) are covered by the static tie only",
 ]
 RULE = ("per runnable estimator (forecasters incl. composites, series / panel transformers, TSF/RISE/BOSS-family classifiers, TSF regressor) x containers "
@@ -74,8 +72,7 @@ RULE = ("per runnable estimator (forecasters incl. composites, series / panel tr
         "on the original, on equal-parameter twins (n_jobs None/1/2/4, threading backend), on a freshly fitted twin per call and on a pickled copy; forecasters: "
         "out-of-sample, in-sample and mixed horizons, relative and absolute, on ONE object, with a state digest (cutoff, remembered series, fitted flag, window "
         "length) before/after every call; every estimator with a random_state: seed forms 0, positive int, np.int64, RandomState instance built equal per copy "
-        "(instance form skipped, and counted, where an apply-type method draws from it or the docstring says int only; time series forests: sequential twins only, "
-        "see findings 4); forecaster histories through the state-machine model with the same horizon kinds; Hampel filter against its Lean model; Parallel under "
+        "(instance form skipped, and counted, where an apply-type method draws from it or the docstring says int only); forecaster histories through the state-machine model with the same horizon kinds; Hampel filter against its Lean model; Parallel under "
         "induced completion orders; one static source walk (global random, random_state truthiness tests, writes to self, unordered collection). distinct by driver "
         "line; non-trivial = at least one apply-type call returned a value")
 LEVEL_TEXT = ("PARTIAL by nature. Lean 4 theorems over executable models: for the forecaster state machine (any core, both horizon mixins) predict leaves "
@@ -439,13 +436,6 @@ def table():
                    ("st:imputer_random", "draws-in-transform"), ("clf:stsf", "documented-int-only")):
         if k in T:
             T[k]["no_rsobj"] = why
-    # FINDING (findings/C12.md, 4): the time series forests hand `self.random_state` ITSELF to every tree; a
-    # RandomState instance is then shared by the parallel tree fits and consumed in thread-scheduling order, so with
-    # n_jobs > 1 the fitted forest depends on the schedule.  A thread race cannot be a deterministic known-finding
-    # witness: for these two the instance form is run with the sequential twins only (counted as skipped).
-    for k in ("clf:tsf", "reg:tsf"):
-        if k in T:
-            T[k]["rsobj_seq_only"] = "shared-generator-race-under-n_jobs>1"
     for k, e in T.items():
         e.setdefault("conts", ["Series"] if e["fam"] in ("fc", "st") else ["nested"])
         e.setdefault("njobs", False)
@@ -548,7 +538,7 @@ def _train_data(c):
 def _mk_est(c, inst):
     e = table()[c["est"]]
     est = e["make"](rs_value(c), None)
-    if inst in ("j1", "j2", "j4"):
+    if inst in ("j1", "j2", "j4", "f1", "f2", "f4"):
         nj = int(inst[1:])
         est = e["make"](rs_value(c), nj)
         if "n_jobs" in est.get_params(deep=False):
@@ -601,7 +591,7 @@ def run_seq(c):
 
     def fitted(inst):
         """a fitted copy: 'o' original; jN/j1/j2/j4/tw equal-parameter twins; pk = pickle round trip of 'o'"""
-        if inst in insts and inst != "fr":          # 'fr' = a FRESHLY fitted twin for this one call
+        if inst in insts and inst[0] != "f":        # 'fr' / 'f1' / 'f2' / 'f4' = a FRESHLY fitted twin (default n_jobs / that n_jobs) for this one call
             return insts[inst]
         if inst == "pk":
             o = fitted("o")
@@ -1026,8 +1016,6 @@ def features(c, out):
             f.append("random_state=" + c["rsform"])
             if e.get("no_rsobj"):
                 f.append("skipped=random_state-instance:" + e["no_rsobj"])
-            if e.get("rsobj_seq_only") and c["rsform"] == "rsobj":
-                f.append("skipped=random_state-instance-with-n_jobs>1:" + e["rsobj_seq_only"])
         fit, calls = _parse_seq(out)
         f.append("fitflag=" + fit)
         insts = set()
@@ -1112,8 +1100,6 @@ def _seq_case(rng, key, cont, quick, variant=0, rsform=None, compact=False):
     if has_random_state(key):
         forms = [f for f in RS_FORMS if not (f == "rsobj" and e.get("no_rsobj"))]
         c["rsform"] = rsform if rsform in forms else forms[variant % len(forms)] if not quick else rng.choice([f for f in forms if f != "zero"])
-        if c["rsform"] == "rsobj" and e.get("rsobj_seq_only"):
-            c["calls"] = [x for x in c["calls"] if x[0] not in ("j2", "j4")]
     if fam in ("fc", "st"):
         c["ikind"] = ["int64", "range"][(variant + rng.randrange(2)) % 2] if fam == "st" else ["int64", "range"][variant % 2]
         c["start"] = 0
